@@ -41,7 +41,7 @@ NUM_POOL = [
 UNITS = ["mV", "ms", "mM", "pA", "uF", "ms**-1", "pA*pF**-1", "1", "mM*ms**-1", "nS"]
 DESCS = ["Info about it", "membrane potential", "rate", "a thing"]
 COMMENTS = ["mV", "ms**-1", "a comment", "rate constant", "pA*pF**-1", "see eq 4", "mM"]
-COMPS = ["Membrane", "Ion channel", "buffers", "Ca dynamics"]
+COMPS = ["Membrane", "Ion channel", "buffers", "Ca dynamics", "Ca", "NaK", "Na"]  # incl. names that are substrings of others
 
 
 @dataclass
@@ -233,6 +233,10 @@ def gen_num_expr(c: Ctx, vars_, depth: int, in_binop: bool = False):
 
 def gen_rel(c: Ctx, vars_, depth):
     ops = ["Lt", "Gt", "Le", "Ge"] + (["Eq"] if c.cfg.allow_eq else [])
+    if len(vars_) >= 2 and c.p(0.12):
+        a, b = c.pick(vars_), c.pick(vars_)
+        if a != b:
+            return ["rel", c.pick(ops), ["var", a], ["var", b]]
     if vars_ and c.p(0.3):
         # threshold comparison of a variable (or of time) with a (possibly negative) literal
         lit = gen_num(c)
@@ -437,6 +441,29 @@ def gen_model(draw, cfg: GenCfg):
             if kind != "ok":
                 a["expr"] = ["num", "2"]
                 ev0.cache.pop(a["name"], None)
+    # ... and sub-expressions made of constants and constant definitions only (m = cos(3.25);
+    # dx_dt = m**0.5 - x is the square root of a negative number)
+    consts = {a["name"] for a in assigns if a["name"] in inames and is_const(a["name"])}
+
+    def fix_sub(e):
+        if e[0] in ("num", "pi", "time"):
+            return e
+        if e[0] == "var":
+            return e
+        vs = X.variables(e)
+        if vs and vs <= consts and not X.uses_time(e) and e[0] not in ("rel", "not", "and", "or"):
+            try:
+                r = ev0.eval(e)
+                if r.relerr() > 1e-9:
+                    return ["num", "2"]
+                return e
+            except refsem.RefError:
+                return ["num", "2"]
+        return [fix_sub(x) if isinstance(x, list) else x for x in e]
+
+    if consts:
+        for a in assigns:
+            a["expr"] = fix_sub(a["expr"])
     # textual order of assignments is independent of the dependency order
     assigns = draw(st.permutations(assigns))
     return {"states": states, "params": params, "assigns": list(assigns)}
@@ -514,6 +541,8 @@ def boundary_pairs(model):
                                 out.append((lhs[1], float(rhs[1])))
                             elif rhs[0] == "neg" and rhs[1][0] == "num":
                                 out.append((lhs[1], -float(rhs[1][1])))
+                            elif rhs[0] == "var" and lhs[0] == "var" and rhs[1] != lhs[1]:
+                                out.append((lhs[1], ("same-as", rhs[1])))  # Eq(x, p): exact equality of two inputs
                         except ValueError:
                             pass
     return out
@@ -524,6 +553,11 @@ def draw_point(draw, model, nonneg=False, t_strategy=None):
     bp = boundary_pairs(model)
     if bp and draw(st.integers(0, 3)) == 0:
         var, val = draw(st.sampled_from(bp))
+        if isinstance(val, tuple):
+            other = val[1]
+            val = pt["states"].get(other, pt["params"].get(other))
+            if val is None:
+                return pt
         if var in ("t", "time"):
             pt["t"] = val
         elif var in pt["states"]:
